@@ -12,6 +12,7 @@ def RLocal (p : Trace) (e : Ev) (o : List Out) : Prop :=
   | .send => ∃ r c, o = [.sent r c] ∧ outcomes r (outs p) = 0 ∧
       ∀ r' k', Out.sent r' k' ∈ outs p → r' ≠ r ∧ k' ≠ c
   | .burn => o = []
+  | .sendFail => o = [.sendErr]
   | .msg _ _ _ => o = []
   | .recv k v => ∀ x, x ∈ o → x = .drop k v ∨
       ∃ r c w, x = .deliver r (some c) w ∧ Out.sent r c ∈ outs p ∧ outcomes r (outs p) = 0 ∧
@@ -397,6 +398,21 @@ theorem rinv_step (s : RState) (past : Trace) (e : Ev) (h : RInv s past) :
     obtain ⟨h1, h2, h3⟩ := hent c e hc
     refine ⟨by simpa using h1, by simpa using h2, ?_⟩
     intro w hw; simp only [List.map_append]; exact List.mem_append_left _ (h3 w hw)
+  | sendFail =>
+    have hst : rstep s .sendFail = ({ s with cseq := s.cseq + 1 }, [.sendErr]) := by
+      simp [rstep, fstep]
+    rw [hst]
+    obtain ⟨hent, hsnt, hinq, hnd, huniq, hfresh, honce, hnf⟩ := hcore
+    refine ⟨⟨?_, ?_, hinq, hnd, by simpa using huniq, by simpa using hfresh,
+      by simpa using honce, by simpa using hnf⟩, good_snoc hgood rfl⟩
+    · intro c e hc
+      obtain ⟨h1, h2, h3⟩ := hent c e hc
+      refine ⟨by simpa using h1, by simpa using h2, ?_⟩
+      intro w hw; simp only [List.map_append]; exact List.mem_append_left _ (h3 w hw)
+    · intro r c hm
+      simp only [outs_snoc, List.mem_append, List.mem_singleton, reduceCtorEq, or_false] at hm
+      have := hsnt r c hm
+      exact ⟨this.1, by simp only []; omega, this.2.2⟩
   | msg kd k v =>
     have hst : rstep s (.msg kd k v) = (s, []) := rfl
     rw [hst]
